@@ -232,8 +232,18 @@ class C19:
                     hdr = m
                     break
             if hdr is None:
+                # whatever the layout of the header: some line names one of the input files, optionally with :line:col
+                for known in sorted(by_path, key=lambda x: -len(x or "")):
+                    m2 = re.search(r"(%s)(?::(\d+):(\d+))?" % re.escape(known), d) if known else None
+                    if m2:
+                        hdr = m2
+                        stats.inc("header_in_another_layout")
+                        break
+            if hdr is None:
                 return {"what": "diagnostic without location header", "diagnostic": d}
             path, line, col = hdr.group(1), hdr.group(2), hdr.group(3)
+            if path.startswith("./"):
+                path = path[2:]
             if path not in by_path:
                 return {"what": "diagnostic names %r, which is not one of the input files %s" % (path, sorted(by_path)),
                         "diagnostic": d}
